@@ -128,6 +128,8 @@ def decode(m, v, model, depth=0):
         return v
     if isinstance(v, Fraction):
         return {"__real__": str(v), "approx": float(v)}
+    if type(v).__name__ == "SArr":
+        return {"__ndarray__": [decode(m, x, model, depth + 1) for x in v.data], "shape": list(v.shape)}
     if isinstance(v, NanReal):
         isn = v.isnan if isinstance(v.isnan, bool) else z3.is_true(model.eval(v.isnan, model_completion=True))
         if isn:
@@ -161,6 +163,8 @@ def decode(m, v, model, depth=0):
         return out
     if isinstance(v, SDict):
         return {"__dict__": [[decode(m, k, model), decode(m, x, model, depth + 1)] for k, x in v.d.items()]}
+    if isinstance(v, SADict):
+        return {"__dict__": [[decode(m, k, model), decode(m, x, model, depth + 1)] for k, x in zip(v.keys, v.vals)]}
     if isinstance(v, (SymMap, SymSet)):
         # enumerate candidate keys: every integer the model mentions (bounded)
         cands = set(range(-8, 16))
